@@ -34,6 +34,8 @@ type frame struct {
 	result Value
 	panicking *goPanic
 	visits map[int]int
+	phiOv  map[*ssa.Phi]Value
+	phiOvFor *ssa.BasicBlock
 }
 
 // Interp is a per-worker interpreter; per-path state is reset by beginPath.
@@ -75,11 +77,15 @@ type Interp struct {
 	inInit   bool
 	tmpl     *globalTemplate
 	cross    *sym.Solver
+	fallback *sym.Solver
 	panicFrames []*frame
 	astBack  map[*Cell]reflect.Value
 	astFwd   map[uintptr]*Ptr
 	reached  []string
 	byteAssumed map[int]bool
+	spec bool
+	specGuard *sym.Term
+	fnInfos map[*ssa.Function]*fnInfo
 	matchers map[*ahocorasick.Matcher][]string
 }
 
@@ -112,8 +118,14 @@ func (in *Interp) choose(conds []*sym.Term, what string) int {
 		panic(pathEnd{"no alternative: " + what})
 	}
 	if cnt == 1 {
+		if in.spec {
+			panic(specAbort{"pc change inside speculative region"})
+		}
 		in.addPC(conds[nonFalse])
 		return nonFalse
+	}
+	if in.spec {
+		panic(specAbort{"choice point inside speculative region"})
 	}
 	if in.tpos < len(in.trace) {
 		d := in.trace[in.tpos]
@@ -152,6 +164,9 @@ func (in *Interp) choose(conds []*sym.Term, what string) int {
 		panic(pathEnd{"infeasible: " + what})
 	}
 	d := feas[0]
+	if len(feas) > 1 {
+		in.Ex.noteFork(what)
+	}
 	for _, j := range feas[1:] {
 		nt := make([]int, len(in.taken)+1)
 		copy(nt, in.taken)
@@ -190,6 +205,9 @@ func (in *Interp) require(c *sym.Term, msg string) {
 }
 
 func (in *Interp) oblige(c *sym.Term, what string) {
+	if in.specGuard != nil {
+		c = in.St.Implies(in.specGuard, c)
+	}
 	if c.IsTrue() {
 		return
 	}
@@ -295,6 +313,12 @@ func (in *Interp) execBlocks(fr *frame) Value {
 			}
 			switch x := instr.(type) {
 			case *ssa.Phi:
+				if fr.phiOv != nil {
+					if v, ok := fr.phiOv[x]; ok {
+						fr.locals[x] = v
+						continue
+					}
+				}
 				for i, pred := range fr.block.Preds {
 					if pred == fr.prev {
 						fr.locals[x] = in.get(fr, x.Edges[i])
@@ -305,6 +329,12 @@ func (in *Interp) execBlocks(fr *frame) Value {
 				next = fr.block.Succs[0]
 			case *ssa.If:
 				c := in.get(fr, x.Cond).(*sym.Term)
+				if !c.IsConst() {
+					if J, ok := in.tryIfConvert(fr, x, c); ok {
+						next = J
+						break
+					}
+				}
 				if in.branch(c, "if@"+in.posStr(x.Cond.Pos(), fr.fn)) {
 					next = fr.block.Succs[0]
 				} else {
@@ -338,6 +368,9 @@ func (in *Interp) execBlocks(fr *frame) Value {
 		}
 		fr.prev = fr.block
 		fr.block = next
+		if fr.phiOvFor != next {
+			fr.phiOv = nil
+		}
 	}
 }
 
